@@ -133,9 +133,9 @@ func (e *Effects) provenance(v ssa.Value, fn *ssa.Function, depth int, seen map[
 	rec := func(x ssa.Value) []Root { return e.provenance(x, fn, depth+1, seen) }
 	switch v := v.(type) {
 	case *ssa.Alloc:
-		return []Root{{Fresh, v}}
+		return []Root{{e.freshIfOwned(v), v}}
 	case *ssa.MakeSlice, *ssa.MakeMap, *ssa.MakeChan, *ssa.MakeClosure:
-		return []Root{{Fresh, v}}
+		return []Root{{e.freshIfOwned(v), v}}
 	case *ssa.Const:
 		return nil
 	case *ssa.Global:
@@ -341,7 +341,7 @@ func (e *Effects) provenanceOfCell(cell ssa.Value, fn *ssa.Function, depth int, 
 	if pt, ok := al.Type().(*types.Pointer); ok {
 		switch pt.Elem().Underlying().(type) {
 		case *types.Struct, *types.Array:
-			return []Root{{Fresh, al}}
+			return []Root{{e.freshIfOwned(al), al}}
 		}
 	}
 	var out []Root
@@ -353,9 +353,22 @@ func (e *Effects) provenanceOfCell(cell ssa.Value, fn *ssa.Function, depth int, 
 		}
 	}
 	if !found {
-		return []Root{{Fresh, al}}
+		return []Root{{e.freshIfOwned(al), al}}
 	}
 	return out
+}
+
+// freshIfOwned: memory allocated by a function of the analysed call closure is
+// allocated during the call; an allocation of an enclosing function (a
+// variable captured by the analysed closure) outlives the call and is shared
+// between calls.
+func (e *Effects) freshIfOwned(v ssa.Value) RootKind {
+	if in, ok := v.(ssa.Instruction); ok {
+		if p := in.Parent(); p != nil && !e.Funcs[p] {
+			return FreeVar
+		}
+	}
+	return Fresh
 }
 
 // Shared reports the non-fresh roots of a write.
